@@ -38,10 +38,19 @@ def cf1d(ny, nx, *, lat=None, lon=None, ydim='y', xdim='x', lat_name='lat', lon_
 
 
 DATA_FIRST = False     # set by a harness to list the data variables before the geometry variables
+BOUNDS_AS_COORDS = False   # set by a harness: bounds variables (*_bnds) are held as xarray coordinates, as after
+#                            Dataset.set_coords / open_dataset(decode_coords='all')
 
 
 def _assemble(variables, coords, data_vars, attrs):
     """Geometry variables first (as in files written by the models), then data - unless DATA_FIRST."""
+    ds = _assemble0(variables, coords, data_vars, attrs)
+    if BOUNDS_AS_COORDS:
+        ds = ds.set_coords([n for n in ds.data_vars if str(n).endswith('_bnds')])
+    return ds
+
+
+def _assemble0(variables, coords, data_vars, attrs):
     if DATA_FIRST and data_vars:
         dv = {k: (v if isinstance(v, xarray.DataArray) else xarray.Variable(*v)) for k, v in data_vars.items()}
         return xarray.Dataset(data_vars={**dv, **{k: xarray.Variable(*v) for k, v in variables.items()}}, coords=coords, attrs=attrs)
